@@ -1,4 +1,611 @@
+//! mpx — decides C15 (multipart parsing exact, segmentation-independent, always terminates) by
+//! exhaustive enumeration of bodies x chunkings x truncation points x Pending positions x consumer
+//! programs x buffer limits against the real `actix_multipart::Multipart`, driven by a wake-driven
+//! executor. See DESIGN.md §4 C15.
+
+mod exec;
+mod gen;
+mod oracle;
+mod refparse;
+mod sets;
+
+use exec::{EndKind, Limit, Observation, Prog, Run};
+use gen::{Body, BodySpec};
+use mc_core::report::{Evidence, Reporter, Violation};
+use oracle::{Ctx, Fail};
+use refparse::Parse;
+use serde::{Deserialize, Serialize};
+use serde_json::{json, Value};
+use std::collections::{BTreeMap, HashSet};
+use std::sync::atomic::{AtomicBool, AtomicUsize, Ordering};
+use std::sync::Mutex;
+use std::time::{Duration, Instant};
+
+/// Everything that determines one execution besides the body bytes.
+#[derive(Clone, Debug, PartialEq, Eq, Hash, Serialize, Deserialize)]
+pub struct Params {
+    /// number of bytes delivered (None = the whole body)
+    pub trunc: Option<usize>,
+    pub end: EndKind,
+    pub cuts: Vec<usize>,
+    pub all1: bool,
+    pub pend_mask: u64,
+    pub pend_all: bool,
+    pub prog: Prog,
+    pub limit: Limit,
+    pub env_first: bool,
+}
+
+/// Per-body context shared by all deliveries of that body.
+pub struct BodyCtx {
+    pub bytes: Vec<u8>,
+    pub boundary: String,
+    pub content_type: String,
+    pub spec: Option<BodySpec>,
+    pub gen: Option<Body>,
+    /// longest unit the parser must hold contiguously (line, header block, delimiter)
+    pub need: usize,
+    pub slack: usize,
+}
+
+/// Per-(body, truncation) context.
+pub struct TruncCtx {
+    pub len: usize,
+    /// readings of the delivered bytes: strict first, then with 1, 2, .. debatable delimiter
+    /// candidates (junk after `CRLF--boundary`, or input ending right there) read as content
+    pub parses: Vec<Parse>,
+    pub starts: Vec<usize>,
+}
+
+impl TruncCtx {
+    pub fn strict(&self) -> &Parse {
+        &self.parses[0]
+    }
+}
+
+fn hex(b: &[u8]) -> String {
+    b.iter().map(|x| format!("{x:02x}")).collect()
+}
+fn unhex(s: &str) -> Vec<u8> {
+    (0..s.len() / 2).map(|i| u8::from_str_radix(&s[2 * i..2 * i + 2], 16).unwrap_or(0)).collect()
+}
+
+impl BodyCtx {
+    pub fn from_raw(bytes: Vec<u8>, boundary: String, content_type: String) -> Self {
+        let full = refparse::parse(&bytes, &boundary, usize::MAX);
+        let first = refparse::parse(&bytes, &boundary, 0);
+        let mut need = boundary.len() + 6;
+        // preamble lines
+        let pre_end = first.fields.first().map(|f| f.headers_start).unwrap_or(bytes.len());
+        let mut ls = 0;
+        let mut preamble_len = 0;
+        let dash_line = format!("--{boundary}\r\n");
+        while ls < pre_end {
+            let le = bytes[ls..pre_end].windows(2).position(|w| w == b"\r\n").map(|p| ls + p + 2).unwrap_or(pre_end);
+            need = need.max(le - ls);
+            if &bytes[ls..le] != dash_line.as_bytes() {
+                preamble_len = le;
+            }
+            ls = le;
+        }
+        for p in [&full, &first] {
+            for f in &p.fields {
+                need = need.max(f.content_start - f.headers_start);
+            }
+        }
+        let slack = preamble_len + boundary.len() + 8;
+        BodyCtx { bytes, boundary, content_type, spec: None, gen: None, need, slack }
+    }
+
+    pub fn from_spec(spec: &BodySpec) -> Self {
+        let g = gen::generate(spec);
+        let mut b = BodyCtx::from_raw(g.bytes.clone(), g.boundary.clone(), g.content_type.clone());
+        // cross-check the generator's ground truth with the independent reference parser
+        let p = refparse::parse(&g.bytes, &g.boundary, usize::MAX);
+        let same = p.is_well_formed()
+            && p.fields.len() == g.fields.len()
+            && p.fields.iter().zip(&g.fields).all(|(r, t)| {
+                r.complete
+                    && r.content == t.content
+                    && r.content_start == t.content_start
+                    && r.headers == t.headers
+                    && r.header("content-disposition").and_then(refparse::cd_name) == t.name
+            });
+        if !same {
+            mc_core::machinery(format!(
+                "generator and reference parser disagree on {:?}: body \"{}\" -> {:?}",
+                spec,
+                mc_core::show(&g.bytes),
+                p
+            ));
+        }
+        if !g.has_junk {
+            let s = refparse::parse(&g.bytes, &g.boundary, 0);
+            if s != p {
+                mc_core::machinery(format!("strict and lenient reference parses differ on a junk-free body {:?}", spec));
+            }
+        }
+        if b.slack < g.preamble_len + g.boundary.len() + 8 {
+            mc_core::machinery("preamble length mismatch between generator and reference parser");
+        }
+        b.spec = Some(spec.clone());
+        b.gen = Some(g);
+        b
+    }
+
+    pub fn trunc(&self, t: Option<usize>) -> TruncCtx {
+        let len = t.unwrap_or(self.bytes.len()).min(self.bytes.len());
+        let data = &self.bytes[..len];
+        let mut parses: Vec<Parse> = Vec::new();
+        for budget in 0..16 {
+            let p = refparse::parse(data, &self.boundary, budget);
+            let more = p.stopped_at_candidate;
+            if parses.last() != Some(&p) {
+                parses.push(p);
+            }
+            if !more {
+                break;
+            }
+        }
+        let starts = parses.last().unwrap().fields.iter().map(|f| f.content_start).collect();
+        TruncCtx { len, parses, starts }
+    }
+}
+
+pub fn run_case(b: &BodyCtx, t: &TruncCtx, p: &Params) -> (Observation, Result<(), Fail>) {
+    let data = &b.bytes[..t.len];
+    let run = Run {
+        content_type: &b.content_type,
+        data,
+        cuts: &p.cuts,
+        all1: p.all1,
+        pend_mask: p.pend_mask,
+        pend_all: p.pend_all,
+        end: p.end,
+        prog: p.prog,
+        limit: p.limit,
+        env_first: p.env_first,
+        starts: &t.starts,
+    };
+    let obs = exec::execute(&run);
+    let max_chunk = if data.is_empty() {
+        0
+    } else if p.all1 {
+        1
+    } else {
+        let mut m = 0;
+        let mut prev = 0;
+        for &c in &p.cuts {
+            m = m.max(c - prev);
+            prev = c;
+        }
+        m.max(data.len() - prev)
+    };
+    let cx = Ctx {
+        data,
+        boundary: &b.boundary,
+        end: p.end,
+        prog: p.prog,
+        limit: p.limit.value(),
+        relaxed: b.need > p.limit.value(),
+        max_chunk,
+        cuts: &p.cuts,
+        all1: p.all1,
+        pend_mask: p.pend_mask,
+        pend_all: p.pend_all,
+        slack: b.slack,
+    };
+    let verdict = oracle::judge(&obs, &t.parses, &cx);
+    (obs, verdict)
+}
+
+pub fn replay_value(b: &BodyCtx, p: &Params) -> Value {
+    json!({
+        "content_type": b.content_type,
+        "boundary": b.boundary,
+        "body_hex": hex(&b.bytes),
+        "body_shown": mc_core::show(&b.bytes),
+        "body_spec": b.spec,
+        "params": p,
+    })
+}
+
+fn weight(b: &BodyCtx, p: &Params) -> u64 {
+    let nf = b.spec.as_ref().map(|s| s.fields.len()).unwrap_or(9) as u64;
+    let dev = p.cuts.len() as u64
+        + p.trunc.is_some() as u64
+        + (p.end == EndKind::Err) as u64
+        + p.all1 as u64 * 2
+        + (p.pend_mask.count_ones() as u64).min(3)
+        + p.pend_all as u64 * 2
+        + (p.prog != Prog::ReadAll) as u64 * 2
+        + (p.limit != Limit::New) as u64 * 2;
+    (dev << 40) | (nf << 32) | b.bytes.len() as u64
+}
+
+#[derive(Default)]
+struct Local {
+    evaluations: u64,
+    classes: HashSet<u64>,
+    nontrivial: HashSet<u64>,
+    violations: BTreeMap<(String, String), Violation>,
+    violating: u64,
+    per_set: BTreeMap<&'static str, u64>,
+    samples: Vec<Value>,
+    polls: u64,
+    polls_after_end: u64,
+    relaxed_cases: u64,
+    truncated_wellformed: u64,
+    outcome_kinds: BTreeMap<String, u64>,
+}
+
+fn class_of(b: &BodyCtx, t: &TruncCtx, p: &Params, obs: &Observation) -> (u64, bool) {
+    // canonical class: body family + where each cut / the truncation fell relative to the
+    // structure (region kind, content id and Content-Length flag of the part it belongs to,
+    // offset inside the region) + delivery mode + consumer + limit + outcome shape
+    let mut s = String::new();
+    let mut nontrivial = false;
+    if let (Some(spec), Some(g)) = (&b.spec, &b.gen) {
+        s.push_str(&format!("{:?}/{}/{}/{}/{}|", spec.flavour, spec.boundary, spec.pre, spec.epi, spec.fields.len()));
+        let mut mark = |off: usize, tag: &str, s: &mut String| {
+            let (k, part, rel, inside) = g.region_of_cut(off);
+            let f = spec.fields.get(part).or_else(|| part.checked_sub(1).and_then(|q| spec.fields.get(q)));
+            let prev = part.checked_sub(1).and_then(|q| spec.fields.get(q));
+            s.push_str(&format!(
+                "{tag}{k:?}.{part}.{rel}.{inside}.{:?}.{:?};",
+                f.map(|f| (f.content, f.cl)),
+                prev.map(|f| (f.content, f.cl))
+            ));
+            if inside && matches!(k, gen::RegionKind::Delimiter | gen::RegionKind::Headers | gen::RegionKind::Preamble) {
+                nontrivial = true;
+            }
+        };
+        for &c in &p.cuts {
+            mark(c, "c", &mut s);
+        }
+        if p.trunc.is_some() {
+            mark(t.len, "t", &mut s);
+        }
+        if p.cuts.is_empty() && p.trunc.is_none() {
+            // whole / all-1-byte deliveries of complete bodies: the body itself is the case
+            for f in &spec.fields {
+                s.push_str(&format!("{}{},", f.content, if f.cl { "L" } else { "" }));
+            }
+        }
+    } else {
+        s.push_str(&hex(&b.bytes));
+        s.push_str(&format!("{:?}{:?}", p.cuts, p.trunc));
+    }
+    s.push_str(&format!(
+        "|{}{}{:?}{:x}{:?}{:?}{}|",
+        p.all1 as u8, p.pend_all as u8, p.end, p.pend_mask, p.prog, p.limit, p.env_first as u8
+    ));
+    s.push_str(&oracle::outcome_shape(obs));
+    (mc_core::fnv_str(&s), nontrivial)
+}
+
+pub struct Unit {
+    pub set: &'static str,
+    pub spec: BodySpec,
+    pub plan: sets::Plan,
+}
+
 fn main() {
-    eprintln!("MACHINERY: engine mpx is not built yet");
-    std::process::exit(2);
+    let args = mc_core::cli::parse();
+    if args.property != "C15" {
+        eprintln!("MACHINERY: engine mpx serves C15 only");
+        std::process::exit(2);
+    }
+    mc_core::explore::install_panic_hook();
+    if let Some(path) = &args.replay {
+        std::process::exit(do_replay(path));
+    }
+    let start = Instant::now();
+    let thorough = args.tier == "thorough";
+    let wall = Duration::from_secs(args.wall_s.unwrap_or(if thorough { 1500 } else { 55 }));
+    let deadline = start + wall;
+
+    let mut units = sets::units(thorough);
+    let set_descr = sets::describe(thorough);
+    let seed: usize = std::env::var("VERIF_SEED").ok().and_then(|s| s.parse().ok()).unwrap_or(0);
+    if !units.is_empty() {
+        let r = seed % units.len();
+        units.rotate_left(r);
+    }
+    let mut units_per_set: BTreeMap<&'static str, u64> = BTreeMap::new();
+    for u in &units {
+        *units_per_set.entry(u.set).or_default() += 1;
+    }
+
+    let next = AtomicUsize::new(0);
+    let capped = AtomicBool::new(false);
+    let machinery: Mutex<Option<String>> = Mutex::new(None);
+    let done_units: Mutex<BTreeMap<&'static str, u64>> = Mutex::new(BTreeMap::new());
+    let threads = mc_core::cli::threads();
+
+    let locals: Vec<Local> = std::thread::scope(|s| {
+        let hs: Vec<_> = (0..threads)
+            .map(|_| {
+                std::thread::Builder::new()
+                    .stack_size(32 << 20)
+                    .spawn_scoped(s, || {
+                        let mut loc = Local::default();
+                        loop {
+                            if machinery.lock().unwrap().is_some() {
+                                break;
+                            }
+                            if Instant::now() > deadline {
+                                capped.store(true, Ordering::SeqCst);
+                                break;
+                            }
+                            let i = next.fetch_add(1, Ordering::SeqCst);
+                            if i >= units.len() {
+                                break;
+                            }
+                            let u = &units[i];
+                            let r = std::panic::catch_unwind(std::panic::AssertUnwindSafe(|| run_unit(u, &mut loc)));
+                            match r {
+                                Ok(Ok(())) => {
+                                    *done_units.lock().unwrap().entry(u.set).or_default() += 1;
+                                }
+                                Ok(Err(m)) => {
+                                    *machinery.lock().unwrap() = Some(m);
+                                    break;
+                                }
+                                Err(_) => {
+                                    let (l, m) = mc_core::explore::take_last_panic().unwrap_or_default();
+                                    *machinery.lock().unwrap() = Some(format!("harness panic at {l}: {m}"));
+                                    break;
+                                }
+                            }
+                        }
+                        loc
+                    })
+                    .unwrap()
+            })
+            .collect();
+        hs.into_iter().map(|h| h.join().unwrap()).collect()
+    });
+
+    if let Some(m) = machinery.lock().unwrap().take() {
+        eprintln!("MACHINERY: {m}");
+        std::process::exit(2);
+    }
+
+    let mut rep = Reporter::new("C15");
+    let mut evaluations = 0u64;
+    let mut classes = HashSet::new();
+    let mut nontrivial = HashSet::new();
+    let mut per_set: BTreeMap<&'static str, u64> = BTreeMap::new();
+    let mut samples = Vec::new();
+    let mut violating = 0;
+    let mut polls = 0;
+    let mut polls_after_end = 0;
+    let mut relaxed_cases = 0;
+    let mut truncated_wellformed = 0;
+    let mut outcome_kinds: BTreeMap<String, u64> = BTreeMap::new();
+    for l in locals {
+        evaluations += l.evaluations;
+        classes.extend(l.classes);
+        nontrivial.extend(l.nontrivial);
+        for (k, v) in l.per_set {
+            *per_set.entry(k).or_default() += v;
+        }
+        for s in l.samples {
+            if samples.len() < 8 {
+                samples.push(s);
+            }
+        }
+        violating += l.violating;
+        polls += l.polls;
+        polls_after_end += l.polls_after_end;
+        relaxed_cases += l.relaxed_cases;
+        truncated_wellformed += l.truncated_wellformed;
+        for (k, v) in l.outcome_kinds {
+            *outcome_kinds.entry(k).or_default() += v;
+        }
+        rep.add_all(l.violations.into_values());
+    }
+    let is_capped = capped.load(Ordering::SeqCst);
+    let done = done_units.lock().unwrap().clone();
+    let sets_complete: Vec<&str> =
+        units_per_set.iter().filter(|(k, v)| done.get(*k).copied().unwrap_or(0) == **v).map(|(k, _)| *k).collect();
+    let sets_incomplete: Vec<String> = units_per_set
+        .iter()
+        .filter(|(k, v)| done.get(*k).copied().unwrap_or(0) != **v)
+        .map(|(k, v)| format!("{k}: {}/{} bodies", done.get(k).copied().unwrap_or(0), v))
+        .collect();
+
+    let code = rep.finish();
+    let wall_s = start.elapsed().as_secs_f64();
+    let mut ev = Evidence::new("C15", &args.tier, "fault_enumeration");
+    ev.set("evaluations", evaluations);
+    ev.set("distinct_observation_classes", classes.len() as u64);
+    ev.set("distinct_nontrivial", nontrivial.len() as u64);
+    ev.set(
+        "rule",
+        "explicit cartesian enumeration (no sampling) of the sets listed under 'sets': body grammar x chunking (whole, every 1-cut, every 2-cut, all-1-byte) x Pending positions x truncation offset x end kind x consumer program x buffer limit, each executed against the real actix_multipart::Multipart under a wake-driven executor. A class is (body shape, region+relative offset of every cut and of the truncation point, delivery mode, Pending mask, consumer program, limit, outcome shape); it is non-trivial when at least one cut or the truncation point falls strictly inside a delimiter line (CRLF--boundary[--]CRLF), a header block or the preamble. distinct_nontrivial counts distinct non-trivial classes (hash set, measured).",
+    );
+    ev.set("samples", Value::Array(samples));
+    ev.set("exhaustive", !is_capped);
+    ev.set("capped", is_capped);
+    ev.set("bound_completed", if is_capped {
+        format!("capped by wall clock; sets fully covered: {:?}; partially covered: {:?}", sets_complete, sets_incomplete)
+    } else {
+        "all sets fully covered: <= 2 cuts (plus all-1-byte), <= 1 truncation point (every offset, EOF and Err(Incomplete) endings), Pending subsets as listed per set, one non-default consumer action per run".to_string()
+    });
+    ev.set("sets", set_descr);
+    ev.set("evaluations_per_set", json!(per_set));
+    ev.set("bodies_per_set", json!(units_per_set));
+    ev.set("consumer_polls", polls);
+    ev.set("source_polled_again_after_it_returned_none", polls_after_end);
+    ev.set("cases_where_a_structural_unit_exceeds_the_limit_overflow_accepted", relaxed_cases);
+    ev.set("truncations_that_leave_a_well_formed_body", truncated_wellformed);
+    ev.set("outcome_kinds", json!(outcome_kinds));
+    ev.set("violating_executions", violating);
+    ev.set("distinct_violation_signatures", rep.distinct() as u64);
+    ev.set("known_findings_matched", rep.known_count() as u64);
+    ev.set("violation_summaries", Value::Array(rep.summaries()));
+    ev.assume("the scripted source stream and the counting waker are the only sources of readiness; the consumer is the async loop `while let Some(field) = mp.next().await { while let Some(chunk) = field.next().await {..} }` plus the listed drop/stall/park variants");
+    ev.assume("reference parser: RFC 2046 delimiter = CRLF \"--\" boundary, no transport padding; a CRLF--boundary followed by neither CRLF nor -- is judged both strictly (malformed, error required) and leniently (content), either is accepted");
+    ev.assume("when a line / header block / delimiter is longer than the configured limit an Overflow error is accepted instead of the fields (the parser cannot do better without exceeding the limit)");
+    ev.assume("per-field Content-Length values are truthful (lying values are outside the statement's quantifier)");
+    ev.wall_s = wall_s;
+    ev.violations = rep.unknown_count() as i64;
+    ev.write();
+    println!(
+        "C15 {}: {} executions, {} classes ({} non-trivial), {} violating executions in {} signature(s) ({} known), capped={}, {:.1}s",
+        args.tier,
+        evaluations,
+        classes.len(),
+        nontrivial.len(),
+        violating,
+        rep.distinct(),
+        rep.known_count(),
+        is_capped,
+        wall_s
+    );
+    std::process::exit(code);
+}
+
+fn run_unit(u: &Unit, loc: &mut Local) -> Result<(), String> {
+    let b = BodyCtx::from_spec(&u.spec);
+    let mut first = true;
+    let mut err: Option<String> = None;
+    sets::enumerate(&u.plan, &b, &mut |t: &TruncCtx, p: &Params| {
+        if err.is_some() {
+            return;
+        }
+        let (obs, verdict) = run_case(&b, t, p);
+        loc.evaluations += 1;
+        *loc.per_set.entry(u.set).or_default() += 1;
+        loc.polls += obs.polls as u64;
+        loc.polls_after_end += obs.polls_after_end as u64;
+        if b.need > p.limit.value() {
+            loc.relaxed_cases += 1;
+        }
+        if p.trunc.is_some() && t.len < b.bytes.len() && t.strict().is_well_formed() {
+            loc.truncated_wellformed += 1;
+        }
+        let (class, nt) = class_of(&b, t, p, &obs);
+        loc.classes.insert(class);
+        if nt {
+            loc.nontrivial.insert(class);
+        }
+        let kind = match (&obs.fin, &verdict) {
+            (exec::Final::Completed, Ok(())) => {
+                if obs.events.iter().any(|e| matches!(e, exec::Ev::MpEnd { how: exec::End::Err(_) } | exec::Ev::FieldEnd { how: exec::End::Err(_), .. })) {
+                    "completed-with-error-accepted"
+                } else {
+                    "completed-clean-accepted"
+                }
+            }
+            (_, Ok(())) => "other-accepted",
+            (exec::Final::Hang { .. }, Err(_)) => "hang-rejected",
+            (exec::Final::Panic { .. }, Err(_)) => "panic-rejected",
+            (_, Err(_)) => "completed-rejected",
+        };
+        *loc.outcome_kinds.entry(kind.to_string()).or_default() += 1;
+        // determinism: the first case of every body and every failing case are executed twice
+        if first || verdict.is_err() {
+            let (obs2, verdict2) = run_case(&b, t, p);
+            if obs2 != obs || verdict2 != verdict {
+                err = Some(format!(
+                    "nondeterminism: body {:?} params {:?} gave different observations on re-execution",
+                    u.spec, p
+                ));
+                return;
+            }
+        }
+        if first && loc.samples.len() < 2 && (nt || loc.evaluations % 7 == 1) {
+            loc.samples.push(json!({
+                "set": u.set,
+                "body": mc_core::show_short(&b.bytes, 400),
+                "params": p,
+                "reference": format!("{:?} with {} field(s)", t.strict().status, t.strict().fields.len()),
+                "observed": oracle::summarize(&obs.events),
+                "final": format!("{:?}", obs.fin),
+            }));
+        }
+        first = false;
+        if let Err(f) = verdict {
+            loc.violating += 1;
+            let w = weight(&b, p);
+            let key = (f.clause.to_string(), f.signature.clone());
+            let better = loc.violations.get(&key).map(|o| w < o.weight).unwrap_or(true);
+            if better {
+                loc.violations.insert(
+                    key,
+                    Violation {
+                        property: "C15".into(),
+                        clause: f.clause.into(),
+                        signature: f.signature,
+                        what: f.what,
+                        replay: replay_value(&b, p),
+                        weight: w,
+                    },
+                );
+            }
+        }
+    });
+    match err {
+        Some(e) => Err(e),
+        None => Ok(()),
+    }
+}
+
+fn do_replay(path: &str) -> i32 {
+    let v = mc_core::report::read_replay(path);
+    let r = &v["replay"];
+    let (Some(ct), Some(bd), Some(hx)) = (r["content_type"].as_str(), r["boundary"].as_str(), r["body_hex"].as_str()) else {
+        eprintln!("MACHINERY: replay file lacks content_type/boundary/body_hex");
+        return 2;
+    };
+    let p: Params = match serde_json::from_value(r["params"].clone()) {
+        Ok(p) => p,
+        Err(e) => {
+            eprintln!("MACHINERY: cannot parse params in replay file: {e}");
+            return 2;
+        }
+    };
+    let mut b = BodyCtx::from_raw(unhex(hx), bd.to_string(), ct.to_string());
+    if let Ok(spec) = serde_json::from_value::<BodySpec>(r["body_spec"].clone()) {
+        let g = BodyCtx::from_spec(&spec);
+        if g.bytes == b.bytes {
+            b = g;
+        }
+    }
+    let t = b.trunc(p.trunc);
+    println!("body ({} bytes, boundary \"{}\"): \"{}\"", b.bytes.len(), b.boundary, mc_core::show(&b.bytes));
+    println!("delivered: {} bytes, cuts {:?}, all-1-byte {}, pending mask {:#x} (all: {}), end {:?}", t.len, p.cuts, p.all1, p.pend_mask, p.pend_all, p.end);
+    println!("consumer {:?}, limit {:?} (longest structural unit {} bytes), env_first {}", p.prog, p.limit, b.need, p.env_first);
+    println!("reference (strict): {:?}", t.strict().status);
+    for (i, f) in t.strict().fields.iter().enumerate() {
+        println!("  part #{i}: complete={} headers={:?} content=\"{}\"", f.complete, f.headers.iter().map(|(n, v)| format!("{n}: {}", mc_core::show(v))).collect::<Vec<_>>(), mc_core::show(&f.content));
+    }
+    for (k, l) in t.parses.iter().enumerate().skip(1) {
+        println!("reference (first {k} debatable delimiter candidate(s) read as content): {:?}, {} part(s)", l.status, l.fields.len());
+    }
+    let (obs, verdict) = run_case(&b, &t, &p);
+    let (obs2, verdict2) = run_case(&b, &t, &p);
+    if obs != obs2 || verdict != verdict2 {
+        eprintln!("MACHINERY: nondeterminism on replay");
+        return 2;
+    }
+    println!("observed:{}", oracle::summarize(&obs.events));
+    println!("final: {:?}; consumer polls {}, wake-ups {}, max buffered {}", obs.fin, obs.polls, obs.wakes, obs.max_buffered);
+    match verdict {
+        Ok(()) => {
+            println!("verdict: property holds on this case");
+            if let (Some(c), Some(s)) = (v["clause"].as_str(), v["signature"].as_str()) {
+                println!("(the replay file recorded clause={c} signature={s}; it no longer fails)");
+            }
+            0
+        }
+        Err(f) => {
+            println!("verdict: VIOLATION clause={} signature={}", f.clause, f.signature);
+            println!("  {}", f.what);
+            1
+        }
+    }
 }
